@@ -19,7 +19,7 @@
 EXTENDS Naturals, Sequences, FiniteSets, TLC
 CONSTANTS N, FlushPolicy, MayFail
 VARIABLES k,        \* message being written (1..N), N+1 when the program is over
-          pc,       \* "idle" | "dumped" | "written" | "flushed"
+          pc,       \* "idle" | "written" | "flushed"
           ubuf,     \* process buffer: sequence of pieces [id, part] with part \in {"whole", "tail"}
           kfile,    \* kernel: sequence of pieces [id, part], part \in {"whole", "head"}
           acked,    \* ids whose logging call has returned
@@ -30,12 +30,13 @@ vars == <<k, pc, ubuf, kfile, acked, failed, crashed, writes>>
 Piece(i, p) == [id |-> i, part |-> p]
 Init == k = 1 /\ pc = "idle" /\ ubuf = <<>> /\ kfile = <<>> /\ acked = {} /\ failed = {} /\ crashed = FALSE /\ writes = 0
 Alive == ~crashed /\ k <= N
-Dumps(ok) == /\ Alive /\ pc = "idle" /\ (~ok => MayFail)
-             /\ IF ok THEN pc' = "dumped" /\ UNCHANGED <<k, failed, acked>>
-                ELSE /\ failed' = failed \cup {k} /\ acked' = acked \cup {k} /\ k' = k + 1 /\ pc' = "idle"      \* reported elsewhere; the call returns
-             /\ UNCHANGED <<ubuf, kfile, crashed, writes>>
-\* the single write: the whole line is buffered, or (big line) its head goes straight to the kernel and the rest is buffered
-Write(spill) == /\ Alive /\ pc = "dumped"
+\* dumps() raises (value not encodable): no line is due for this message; the failure is reported elsewhere, the call returns
+DumpsFail == /\ Alive /\ pc = "idle" /\ MayFail
+             /\ failed' = failed \cup {k} /\ acked' = acked \cup {k} /\ k' = k + 1
+             /\ UNCHANGED <<pc, ubuf, kfile, crashed, writes>>
+\* dumps() succeeded; the single write: the whole line is buffered, or (big line) its head goes straight to the kernel and the
+\* rest is buffered
+Write(spill) == /\ Alive /\ pc = "idle"
                 /\ IF spill /\ ubuf = <<>>
                    THEN kfile' = Append(kfile, Piece(k, "head")) /\ ubuf' = <<Piece(k, "tail")>>
                    ELSE ubuf' = Append(ubuf, Piece(k, "whole")) /\ UNCHANGED kfile
@@ -58,7 +59,7 @@ LateFlush == /\ FlushPolicy = "late" /\ Alive /\ pc = "idle" /\ ubuf # <<>>
              /\ kfile' = Drain /\ ubuf' = <<>> /\ UNCHANGED <<k, pc, acked, failed, crashed, writes>>
 Crash == /\ ~crashed /\ crashed' = TRUE /\ ubuf' = <<>>
          /\ UNCHANGED <<k, pc, kfile, acked, failed, writes>>
-Next == Crash \/ Flush \/ Return \/ LateFlush \/ \E b \in BOOLEAN : Dumps(b) \/ Write(b)
+Next == Crash \/ Flush \/ Return \/ LateFlush \/ DumpsFail \/ \E b \in BOOLEAN : Write(b)
 Spec == Init /\ [][Next]_vars
 
 Complete == SelectSeq(kfile, LAMBDA p : p.part = "whole")
@@ -75,5 +76,5 @@ C11_AtMostOneFragment == \A i \in DOMAIN kfile : kfile[i].part = "head" =>
                             (i = Len(kfile) /\ Len(Complete) < Len(Due) /\ kfile[i].id = Due[Len(Complete) + 1])
 \* C10: one write per line, then a flush before the call returns (a reader between calls never sees a partial line)
 C10_OneWriteThenFlush == /\ writes <= 1
-                         /\ (~crashed /\ pc = "idle") => (ubuf = <<>> /\ \A i \in DOMAIN kfile : kfile[i].part = "whole")
+                         /\ (~crashed /\ pc = "idle" /\ FlushPolicy = "always") => (ubuf = <<>> /\ \A i \in DOMAIN kfile : kfile[i].part = "whole")
 =============================================================================
